@@ -67,7 +67,10 @@ class PC(GL_book_model):
         # Add a decorative equation: Government Fiscal Balance
         # = Primary Balance - Interest expense + Central Bank Dividend (= interest
         # received by the central bank).
-        tre.AddVariable('FISCBAL', 'Fiscal Balance', 'PRIM_BAL - INTDEP + CB__INTDEP')
+        # The central bank's interest income is filled in by the deposit market in main(); declare it now so that its
+        # name can be requested (a literal 'CB__INTDEP' is wrong when the model has more than one country).
+        cb.AddVariable('INTDEP', 'Interest received on deposits', '')
+        tre.AddVariable('FISCBAL', 'Fiscal Balance', 'PRIM_BAL - INTDEP + ' + cb.GetVariableName('INTDEP'))
 
         if self.UseBookExogenous:
             # Need to set the exogenous variable - Government demand for Goods ("G" in economist symbology)
@@ -76,11 +79,13 @@ class PC(GL_book_model):
             # NOTE:
             # Initial conditions are only partial; there may be issues with some
             # variables.
-            self.Model.AddInitialCondition('HH', 'AfterTax', 86.486)
-            self.Model.AddInitialCondition('HH', 'F', 86.486)
-            self.Model.AddInitialCondition('TRE', 'F', -86.486)
-            self.Model.AddInitialCondition('HH', 'DEM_DEP', 64.865)
-            self.Model.AddGlobalEquation('t', 'decorated time axis', '1950. + k')
+            # Addressed through the sector objects, so that this also works when embedded in a multi-country model.
+            hh.AddInitialCondition('AfterTax', 86.486)
+            hh.AddInitialCondition('F', 86.486)
+            tre.AddInitialCondition('F', -86.486)
+            hh.AddInitialCondition('DEM_DEP', 64.865)
+            if 't' not in [x[0] for x in self.Model.GlobalVariables]:
+                self.Model.AddGlobalEquation('t', 'decorated time axis', '1950. + k')
         return self.Model
 
     def expected_output(self):
